@@ -355,6 +355,8 @@ class GenInfo:
         self.field_renames = {}
         self.dropped_clauses = []
         self.dropped_ghosts = []
+        self.excluded = []
+        self.excluded_blocks = []
         self.manual_structural = []
         self.lost = []             # (contract key, props) whose function no longer exists
         self.lost_ghosts = []
@@ -457,9 +459,27 @@ def render_file(path, module, moddir, ctx):
         sub = render_file(found[0], (module + '::' if module else '') + m.name, os.path.join(moddir, m.name), ctx)
         edits.append(Edit(m.start, m.end, '%smod %s {\n%s%s\n}\n' % (m.vis, m.name, MOD_PRELUDE, sub)))
 
+    # impl blocks are bracketed by markers, so that a compile error that points at the block itself (not into one of its
+    # functions) can be attributed; a block named in `drop` ("blk:<name>") is left out of the verified text as a whole
+    seen_hdr = {}
+    for b in sc.blocks:
+        if b.kind != 'impl' or any(a <= b.start < e for a, e in sc.drop_spans):
+            continue
+        n = seen_hdr.get(b.header, 0)
+        seen_hdr[b.header] = n + 1
+        bname = '%s|%s|%d' % (module, b.header, n)
+        if ('blk:' + bname) in ctx.get('drop', ()):
+            ctx.setdefault('excluded_blocks', set()).add(b.start)
+            edits.append(Edit(b.start, b.brace_close + 1, '/* impl %s: left out of the verified text */' % b.header, prio=5))
+            info.excluded_blocks.append(bname)
+        else:
+            edits.append(Edit(b.start, b.start, '/*@BLK:%s@*/' % bname, prio=-9))
+            edits.append(Edit(b.brace_close + 1, b.brace_close + 1, '/*@ENDBLK@*/', prio=9))
     # ghost items in impl / trait blocks
     for b in sc.blocks:
         if any(a <= b.start < e for a, e in sc.drop_spans):
+            continue
+        if b.start in ctx.get('excluded_blocks', ()):
             continue
         for gi, g in enumerate(ghosts):
             if g.kind in ('impl', 'trait') and ((g.kind == 'trait' and b.kind == 'trait' and b.header == 'trait ' + g.target)
@@ -524,6 +544,31 @@ def render_file(path, module, moddir, ctx):
         # derived denotations
         body = src[f.body_start:f.body_end] if f.has_body else None
         sigtext = src[f.sig_start:f.sig_end]
+        if ('fn:' + key) in ctx.get('drop', ()) and f.has_body:
+            # the very syntax of this item is rejected by the `verus!` macro (e.g. a pattern in parameter position) and no
+            # attribute can hide it: the item - for a trait impl the whole impl block - is left out of the verified text.
+            # It is recorded as unverified: C08 and every property that depends on it are undecided.
+            blk = next((b for b in sc.blocks if b.kind == 'impl' and b.brace_open < f.start < b.brace_close), None)
+            if blk is not None and ' for ' in f.owner:
+                if blk.start not in ctx.setdefault('excluded_blocks', set()):
+                    ctx['excluded_blocks'].add(blk.start)
+                    edits.append(Edit(blk.start, blk.brace_close + 1, '/* impl %s: left out of the verified text */' % blk.header, prio=5))
+            elif ' for ' not in f.owner:
+                edits.append(Edit(f.start, f.body_end, '/* fn %s: left out of the verified text */' % key, prio=5))
+            info.opaque.append(key)
+            info.excluded.append(key)
+            info.functions.append({'key': key, 'file': rel, 'has_body': False, 'has_contract': bool(fncontracts.get(key)), 'props': [], 'excluded': True,
+                                   'calls': [], 'mut_self': False, 'returns_self': False, 'body_sha256': None, 'body': None, 'prologue': False, 'external_body': True})
+            if key in fncontracts:
+                info.used_contracts.add(key)
+            continue
+        if blk_excluded(sc, f, ctx) or any(b.start in ctx.get('excluded_blocks', ()) and b.brace_open < f.start < b.brace_close for b in sc.blocks):
+            # a sibling in an impl block that was left out as a whole
+            info.opaque.append(key)
+            info.excluded.append(key)
+            info.functions.append({'key': key, 'file': rel, 'has_body': False, 'has_contract': bool(fncontracts.get(key)), 'props': [], 'excluded': True,
+                                   'calls': [], 'mut_self': False, 'returns_self': False, 'body_sha256': None, 'body': None, 'prologue': False, 'external_body': True})
+            continue
         if key in ctx.get('external', ()) and f.has_body:
             # even the signature is outside the verifier's dialect (e.g. a function-pointer parameter): hide the function
             # from Verus altogether; its callers then fail to resolve it and become opaque in the next round
@@ -733,7 +778,7 @@ def render_file(path, module, moddir, ctx):
     return apply_edits(src, edits)
 
 
-MARK = re.compile(r'/\*@(OB|FN|ENDFN|GHOST|ENDGHOST|DERIVED|ENDDERIVED|LEMMA|ENDLEMMA):?(.*?)@\*/')
+MARK = re.compile(r'/\*@(OB|FN|ENDFN|GHOST|ENDGHOST|DERIVED|ENDDERIVED|LEMMA|ENDLEMMA|BLK|ENDBLK):?(.*?)@\*/')
 CELL = re.compile(r'//\s*CELL\s+(.+?)\s*$')
 
 
@@ -791,7 +836,7 @@ def finalize(info):
                 stack.append(['OBX', v, ln])  # clause may span lines: closed by next marker
             elif k == 'FN':
                 stack.append(['FN', v, ln])
-            elif k in ('GHOST', 'DERIVED', 'LEMMA'):
+            elif k in ('GHOST', 'DERIVED', 'LEMMA', 'BLK'):
                 stack.append([k, v, ln])
             elif k == 'ENDFN':
                 # close pending OBX entries
@@ -800,7 +845,7 @@ def finalize(info):
                 t = stack.pop()
                 assert t[0] == 'FN', t
                 info.fn_ranges.append((t[2], ln, t[1]))
-            elif k in ('ENDGHOST', 'ENDDERIVED', 'ENDLEMMA'):
+            elif k in ('ENDGHOST', 'ENDDERIVED', 'ENDLEMMA', 'ENDBLK'):
                 while stack and stack[-1][0] == 'OBX':
                     stack.pop()
                 t = stack.pop()
@@ -863,6 +908,17 @@ def audit(info):
 
 
 INVARIANT_TYPES = ('Ps2Decoder', 'ScancodeSet1', 'ScancodeSet2', 'EventDecoder', 'Keyboard')
+
+
+def blk_excluded(sc, f, ctx):
+    blk = next((b for b in sc.blocks if b.kind == 'impl' and b.brace_open < f.start < b.brace_close), None)
+    if blk is None or ' for ' not in f.owner:
+        return False
+    # is any method of this trait impl marked for exclusion?
+    for g in sc.fns:
+        if blk.brace_open < g.start < blk.brace_close and ('fn:' + g.key) in ctx.get('drop', ()):
+            return True
+    return False
 
 
 def in_comment_or_string(toks, pos):
